@@ -30,7 +30,11 @@ Next ==
      IF l = 0 THEN
         IF WellFormed(T.P) THEN tid' = tid /\ l' = 1 /\ st' = st /\ seen' = seen
         ELSE PrintT(<<"VERDICT", T.id, 0, "XX:ill-formed">>) /\ Skip
-     ELSE IF l > Len(T.ev) THEN Skip
+     ELSE IF l > Len(T.ev) THEN
+          \* a trace the recorder had to cut: a verdict only when the cut lies beyond the bound of the whole call
+          /\ (T.cut /\ Len(T.ev) > RunBound(T) /\ "C04:search-exceeds-its-bound" \notin seen)
+                => PrintT(<<"VERDICT", T.id, l, "C04:search-exceeds-its-bound">>)
+          /\ Skip
      ELSE LET r == Step(T, st, T.ev[l]) IN
           /\ \A c \in r[2] \ seen : PrintT(<<"VERDICT", T.id, l, c>>)
           /\ IF r[2] \cap Fatal # {} \/ \E c \in r[2] : Len(c) >= 11 /\ SubSeq(c, 1, 11) = "C04:raised-"
